@@ -363,12 +363,13 @@ def oracle_ops(world, op):
             if p not in net.product_indices: B('network-product-list', 'product %r of node %d not in network.product_indices %r' % (p, n.index, net.product_indices))
         if [q.index for q in n.products] != list(n.product_indices): B('node-product-lists', 'node %d products %r vs product_indices %r' % (n.index, [q.index for q in n.products], n.product_indices))
         if len(n.product_indices) == 0: B('node-without-product', 'node %d has no product (not even the dummy)' % n.index)
-        if any(p < 0 for p in n.product_indices) and list(n.product_indices) != [n._dummy_product_index_from_node_index(n.index)]:
+        if any(p < 0 for p in n.product_indices) and list(n.product_indices) != [(-2 * n.index) if n.index > 0 else (-1000 - 2 * n.index)]:
             B('dummy-product-index', 'node %d has product list %r' % (n.index, n.product_indices))
     for p in net._local_product_indices:
         if p not in net.product_indices: B('network-product-list', 'local product %r not in network.product_indices' % p)
     if len(set(net.product_indices)) != len(net.product_indices): B('network-product-dup', 'product_indices %r' % net.product_indices)
     # 4. BOM views vs product BOMs
+    if bad: return bad          # graph / index structure already incoherent
     def bomq(p1, p2):
         return F(world.pool[p1]._bill_of_materials.get(p2, 0)) if p1 in world.pool else F(0)
     prods = {n.index: list(n.product_indices) for n in net.nodes}
@@ -423,3 +424,640 @@ def oracle_ops(world, op):
         except Exception as e:
             B('BOM-view-raises-' + exc_kind(e), 'node %d BOM view raised %s: %s' % (i, exc_kind(e), str(e)[:150]))
     return bad
+
+
+# =================================================================================================================
+# builders
+
+DT_TAG = {'N': 1, 'P': 2, 'UD': 3}
+TAG_DT = {v: k for k, v in DT_TAG.items()}
+
+
+def gen_shape(rng, nodes, order_for_lists, val, allow_none_entries=True, malformed=False):
+    """returns a JSON-able description of one keyword argument: ['none'] | ['scalar', v] | ['list', [v|None..]] | ['dict', [[k, v|None]..]]"""
+    k = rng.choice(['none', 'scalar', 'list', 'dict'])
+    def entry():
+        return None if (allow_none_entries and rng.random() < 0.2) else val()
+    if k == 'none': return ['none']
+    if k == 'scalar': return ['scalar', val()]
+    if k == 'list':
+        n = len(order_for_lists)
+        if malformed: n = max(0, n + rng.choice([-1, 1, 2]))
+        return ['list', [entry() for _ in range(n)]]
+    keys = [i for i in nodes if rng.random() < 0.75]
+    if rng.random() < 0.15: keys.append(max(nodes) + 3)        # a key that is not a node: ignored
+    return ['dict', [[i, entry()] for i in keys]]
+
+
+def gen_builder(rng, maxn=5):
+    kind = rng.choice(['nfe', 'single', 'serial', 'serial', 'owmr', 'owmr', 'mwor', 'mwor'])
+    c = {'stream': 'builder', 'kind': kind, 'malformed': None}
+    relabel = rng.random() < 0.5
+    if kind == 'nfe':
+        n = rng.randint(1, maxn)
+        labels = rng.sample(range(10), n) if relabel else list(range(n))
+        ne = 0 if n == 1 else rng.randint(0 if rng.random() < 0.15 else 1, min(7, n * (n - 1) // 2 + 1))
+        edges = []
+        for _ in range(ne):
+            a, b = rng.sample(range(n), 2) if n > 1 else (0, 0)
+            if a > b and rng.random() < 0.8: a, b = b, a            # mostly acyclic
+            edges.append([labels[a], labels[b]])
+        if edges and rng.random() < 0.2: edges.append(list(rng.choice(edges)))   # repeated edge
+        c['edges'] = edges
+        nodes = []
+        for e in edges:
+            for x in e:
+                if x not in nodes: nodes.append(x)
+        c['sys'] = None
+    elif kind == 'single':
+        idx = rng.choice([None, 0, rng.randrange(10)])
+        c['index'] = idx; nodes = [0 if idx is None else idx]; c['sys'] = None
+    else:
+        size = rng.randint(1, maxn) if kind == 'serial' else rng.randint(2, maxn)   # total number of nodes
+        if kind != 'serial' and rng.random() < 0.05: size = 1
+        c['size'] = size
+        default = list(range(size)) if kind in ('serial', 'owmr') else list(range(1, size)) + [0]
+        c['sys'] = rng.sample(range(10), size) if relabel else None
+        nodes = c['sys'] if c['sys'] is not None else default
+    # node_order_in_lists
+    lists = None
+    if kind != 'single' and nodes and rng.random() < 0.5:
+        lists = nodes[:]; rng.shuffle(lists)
+    c['lists'] = lists
+    if kind == 'nfe' and not c['edges']:
+        if rng.random() < 0.5: lists = [rng.randrange(10)]
+        nodes = [lists[0]] if lists else [0]
+        c['lists'] = lists = ([nodes[0]] if lists else None)
+    order = lists if lists is not None else (sorted(nodes) if kind in ('nfe',) else nodes)
+    if kind == 'single': order = nodes
+    mal = None
+    r = rng.random()
+    if r < 0.06 and kind != 'single' and lists is not None and not (kind == 'nfe' and not c['edges']):
+        mal = 'order-set'; c['lists'] = lists = lists[:-1] + [max(nodes) + 1]; order = lists
+    elif r < 0.14:
+        mal = 'list-length'
+    c['malformed'] = mal
+    which_mal = rng.choice(['hc', 'so', 'ds', 'dt']) if mal == 'list-length' else None
+    def shape(name, val):
+        s = gen_shape(rng, nodes, order, val, malformed=(which_mal == name))
+        if which_mal == name and s[0] != 'list':
+            n = max(0, len(order) + rng.choice([-1, 1]))
+            s = ['list', [val() for _ in range(n)]]
+        return s
+    c['hc'] = shape('hc', lambda: rng.randint(1, 9))
+    c['so'] = shape('so', lambda: rng.randint(1, 9))
+    c['ds'] = shape('ds', lambda: rng.choice(['T', 'T', 'U'])) if rng.random() < 0.55 else ['none']
+    c['dt'] = shape('dt', lambda: rng.choice(['N', 'P', 'UD'])) if rng.random() < 0.7 else ['none']
+    if mal == 'list-length':
+        c['malformed'] = 'list-length' if any(c[a][0] == 'list' and len(c[a][1]) != len(order) for a in ('hc', 'so', 'ds', 'dt')) else None
+    c['st'] = gen_shape(rng, nodes, order, lambda: rng.choice(['U', None])) if rng.random() < 0.4 else ['none']   # ignored by the code
+    if c['st'][0] == 'list' and len(c['st'][1]) != len(order): c['st'] = ['none']
+    c['bogus'] = (c['malformed'] is None and rng.random() < 0.03)
+    return c
+
+
+def py_kw(s, conv=lambda v: v):
+    if s[0] == 'none': return None
+    if s[0] == 'scalar': return conv(s[1])
+    if s[0] == 'list': return [None if v is None else conv(v) for v in s[1]]
+    return {int(k): (None if v is None else conv(v)) for k, v in s[1]}
+
+
+def mk_ds(v):
+    _, _, _, DemandSource = _imports()
+    return DemandSource(type='N', mean=10, standard_deviation=2) if v == 'T' else DemandSource()
+
+
+def builder_nodes(c):
+    """(system order or None, node index list in documented order for lists)"""
+    k = c['kind']
+    if k == 'nfe':
+        nodes = []
+        for e in c['edges']:
+            for x in e:
+                if x not in nodes: nodes.append(x)
+        if not c['edges']: nodes = [c['lists'][0] if c['lists'] else 0]
+        return None, nodes
+    if k == 'single':
+        return None, [0 if c['index'] is None else c['index']]
+    size = c['size']
+    default = list(range(size)) if k in ('serial', 'owmr') else list(range(1, size)) + [0]
+    sys_ = c['sys'] if c['sys'] is not None else default
+    return sys_, sys_
+
+
+def run_impl_builder(c):
+    from stockpyl import supply_chain_network as scn
+    kw = {}
+    for name, key, conv in (('hc', 'local_holding_cost', lambda v: v), ('so', 'stockout_cost', lambda v: v),
+                            ('ds', 'demand_source', mk_ds), ('dt', 'demand_type', lambda v: v), ('st', 'supply_type', lambda v: v)):
+        if c[name][0] != 'none':
+            kw[key] = py_kw(c[name], conv)
+    if c.get('bogus'): kw['no_such_attribute'] = 1
+    if c['dt'][0] != 'none':
+        kw['mean'] = 10; kw['standard_deviation'] = 2
+    k = c['kind']
+    try:
+        if k == 'nfe':
+            net = scn.network_from_edges([tuple(e) for e in c['edges']], node_order_in_lists=c['lists'], **kw)
+        elif k == 'single':
+            net = scn.single_stage_system(**kw) if c['index'] is None else scn.single_stage_system(index=c['index'], **kw)
+        elif k == 'serial':
+            net = scn.serial_system(c['size'], node_order_in_system=c['sys'], node_order_in_lists=c['lists'], **kw)
+        elif k == 'owmr':
+            net = scn.owmr_system(c['size'] - 1, node_order_in_system=c['sys'], node_order_in_lists=c['lists'], **kw)
+        else:
+            net = scn.mwor_system(c['size'] - 1, node_order_in_system=c['sys'], node_order_in_lists=c['lists'], **kw)
+    except Exception as e:
+        return ('err', exc_kind(e), str(e)[:200]), None
+    obs = ([(n.index, list(n._predecessor_indices), list(n._successor_indices), list(n.product_indices),
+             (n.supply_type is not None, has_dem(n))) for n in net.nodes],
+           list(net.product_indices),
+           ([(n.index, n.local_holding_cost) for n in net.nodes], [(n.index, n.stockout_cost) for n in net.nodes]))
+    return ('ok', obs), net
+
+
+def coq_arg(s, val):
+    if s[0] == 'none': return 'ANone'
+    if s[0] == 'scalar': return '(AScalar %s)' % val(s[1])
+    o = lambda v: 'None' if v is None else '(Some %s)' % val(v)
+    if s[0] == 'list': return '(AList %s)' % clist([o(v) for v in s[1]])
+    return '(ADict %s)' % clist(['(%s, %s)' % (cnat(k), o(v)) for k, v in s[1]])
+
+
+def coq_builder(c):
+    A = '(mkArgs %s %s %s %s)' % (coq_arg(c['hc'], cnat), coq_arg(c['so'], cnat),
+                                  coq_arg(c['ds'], lambda v: cbool(v == 'T')), coq_arg(c['dt'], lambda v: cnat(DT_TAG[v])))
+    nl = lambda l: clist([cnat(x) for x in l])
+    lists = 'None' if c['lists'] is None else '(Some %s)' % nl(c['lists'])
+    k = c['kind']; sys_, nodes = builder_nodes(c)
+    if k == 'nfe':
+        return 'obs_b (network_from_edges %s %s %s)' % (clist(['(%s, %s)' % (cnat(a), cnat(b)) for a, b in c['edges']]), lists, A)
+    if k == 'single':
+        return 'obs_b (single_stage_system %s %s)' % (cnat(nodes[0]), A)
+    return 'obs_b (%s_system %s %s %s)' % (k, nl(sys_), lists, A)
+
+
+def expected_entry(s, order, i):
+    """documented mapping of an argument shape to node i (order = node order for list arguments)"""
+    if s[0] == 'none': return None
+    if s[0] == 'scalar': return s[1]
+    if s[0] == 'list': return s[1][order.index(i)]
+    for k, v in s[1]:
+        if k == i: return v
+    return None
+
+
+def oracle_builder(c, obs):
+    """documented postconditions, computed from the arguments alone"""
+    from collections import Counter
+    bad = []
+    def B(sig, what): bad.append((sig, what))
+    nodes_obs, nprods, (hc, so) = obs
+    k = c['kind']; sys_, nodes = builder_nodes(c)
+    order = c['lists'] if c['lists'] is not None else (sorted(nodes) if k == 'nfe' else nodes)
+    if k == 'nfe': edges = [tuple(e) for e in c['edges']]
+    elif k == 'single': edges = []
+    elif k == 'serial': edges = [(sys_[j], sys_[j + 1]) for j in range(len(sys_) - 1)]
+    elif k == 'owmr': edges = [(sys_[0], r) for r in sys_[1:]]
+    else: edges = [(x, sys_[-1]) for x in sys_[:-1]]
+    idx = [n[0] for n in nodes_obs]
+    if sorted(idx) != sorted(nodes): B('node-set', 'nodes %r, documented %r' % (idx, nodes))
+    got = Counter((a, b) for (a, _, s, _, _) in nodes_obs for b in s); gotp = Counter((a, b) for (b, p, _, _, _) in nodes_obs for a in p)
+    if got != Counter(edges) or gotp != Counter(edges): B('edge-set', 'arcs by successors %r / by predecessors %r, documented %r' % (sorted(got.elements()), sorted(gotp.elements()), edges))
+    haspred = {b for (_, b) in edges}; hassucc = {a for (a, _) in edges}
+    def dem_exp(i):
+        d = expected_entry(c['ds'], order, i)
+        if d is not None: return d == 'T'
+        return expected_entry(c['dt'], order, i) is not None
+    for (i, p, s, prods, (ext, dem)) in nodes_obs:
+        if ext != (i not in haspred): B('supply-type-placement', 'node %d supply_type set=%s but has predecessors=%s' % (i, ext, i in haspred))
+        if k == 'serial': want = dem_exp(i) if i == sys_[-1] else False
+        elif k == 'owmr': want = dem_exp(i) if i != sys_[0] or len(sys_) == 1 and False else False
+        elif k == 'mwor': want = dem_exp(i) if i == sys_[-1] else False
+        elif k == 'single': want = dem_exp(i)
+        else:
+            # network_from_edges: demand at sinks; elsewhere only when given per node (list / dict)
+            per_node = (c['ds'][0] in ('list', 'dict') and expected_entry(c['ds'], order, i) is not None) or \
+                       (c['dt'][0] in ('list', 'dict') and expected_entry(c['dt'], order, i) is not None)
+            want = dem_exp(i) if (i not in hassucc or per_node) else False
+        if dem != want:
+            sig = 'demand-placement'
+            if k == 'mwor' and c['ds'][0] == 'list': sig = 'demand_source-list-wrong-slot'
+            elif k == 'mwor' and c['dt'][0] in ('list', 'dict') and i != sys_[-1]: sig = 'per-node-demand_type-at-warehouse'
+            B(sig, 'node %d has demand=%s, documented %s' % (i, dem, want))
+    for (i, v) in hc:
+        if v != expected_entry(c['hc'], order, i): B('attribute-mapping', 'node %d local_holding_cost=%r, documented %r (shape %s)' % (i, v, expected_entry(c['hc'], order, i), c['hc'][0]))
+    for (i, v) in so:
+        want = expected_entry(c['so'], order, i)
+        if k == 'serial' and i != sys_[-1]: want = 0
+        if v != want: B('attribute-mapping', 'node %d stockout_cost=%r, documented %r (shape %s)' % (i, v, want, c['so'][0]))
+    return bad
+
+
+def norm_builder_model(m):
+    """Coq value of obs_b -> same shape as the implementation observation"""
+    if m[0] == 'inr': return ('err', ERRMAP.get(m[1], m[1]))
+    nodes, nprods, (hc, so) = m[1]
+    return ('ok', ([(i, list(p), list(s), list(pr), (bool(e), bool(d))) for (i, p, s, pr, (e, d)) in nodes], list(nprods),
+                   ([(i, un_opt(v)) for (i, v) in hc], [(i, un_opt(v)) for (i, v) in so])))
+
+
+# =================================================================================================================
+# levels
+
+def gen_levels(rng, maxn=7):
+    n = rng.randint(1, maxn)
+    sys_ = rng.sample(range(12), n) if rng.random() < 0.7 else list(range(n))
+    neg = rng.random() < 0.15
+    S = [[i, str(Fraction(rng.randint(-8 if neg else 0, 40), 4))] for i in sys_]
+    if rng.random() < 0.3:
+        for e in S:
+            if rng.random() < 0.4: e[1] = '0'
+    return {'stream': 'levels', 'sys': sys_, 'S': S, 'default_labels': sys_ == list(range(n))}
+
+
+def run_impl_levels(c):
+    from stockpyl import supply_chain_network as scn
+    sys_ = c['sys']; S = {int(i): float(Fraction(v)) for i, v in c['S']}
+    try:
+        net = scn.serial_system(len(sys_), node_order_in_system=None if c['default_labels'] else sys_)
+        e = scn.local_to_echelon_base_stock_levels(net, S)
+        l = scn.echelon_to_local_base_stock_levels(net, e)
+        return ('ok', [(n.index, F(e[n.index])) for n in net.nodes], [(n.index, F(l[n.index])) for n in net.nodes])
+    except Exception as ex:
+        return ('err', exc_kind(ex), str(ex)[:200])
+
+
+def coq_levels(c):
+    nl = clist([cnat(x) for x in c['sys']])
+    S = clist(['(%s, %s)' % (cnat(i), cq(Fraction(v))) for i, v in c['S']])
+    return 'match serial_system %s None no_args with BOk b => Some (obs_levels (bn b) %s) | BErr _ => None end' % (nl, S)
+
+
+def oracle_levels(c, r):
+    bad = []
+    sys_ = c['sys']; S = {int(i): Fraction(v) for i, v in c['S']}
+    _, e, l = r
+    e = dict(e); l = dict(l)
+    for j, i in enumerate(sys_):
+        want = sum(S[x] for x in sys_[j:])
+        if e.get(i) != want: bad.append(('local_to_echelon|suffix-sum', 'echelon level of node %d is %s, sum of local levels of it and its downstream nodes is %s' % (i, e.get(i), want)))
+    if all(v >= 0 for v in S.values()):
+        for i in sys_:
+            if l.get(i) != S[i]: bad.append(('echelon_to_local|round-trip', 'node %d: local %s -> echelon -> local gives %s' % (i, S[i], l.get(i))))
+    return bad
+
+
+# =================================================================================================================
+# exploration
+
+def raw_edges(net):
+    return [(n.index, b) for n in net.nodes for b in n._successor_indices]
+
+
+def expect_err(world, op):
+    """exception the documented / evident contract of the call gives for this operation in the current state"""
+    net = world.net; idx = set(net.node_indices); k = op[0]
+    if k == 'add_edge':
+        if (op[1], op[2]) in raw_edges(net): return None
+        return 'KeyError' if (op[1] not in idx or op[2] not in idx) else None
+    if k == 'add_edges':
+        cur = set(raw_edges(net))
+        for a, b in op[1]:
+            if (a, b) in cur: continue
+            if a not in idx or b not in idx: return 'KeyError'
+            cur.add((a, b))
+        return None
+    if k in ('add_succ', 'add_pred', 'node_add_prod', 'node_rem_prod'):
+        return None if op[1] in idx else 'KeyError'
+    if k == 'net_rem_prod':
+        return None if op[1] in net.products_by_index else 'ValueError'
+    if k == 'set_bom':
+        p = world.pool[op[1]]
+        return 'ValueError' if (p.network is not None and op[2] not in p.network.products_by_index) else None
+    if k == 'reindex':
+        keys = {a for a, _ in op[1]}
+        return None if idx <= keys else 'KeyError'
+    return None
+
+
+def run_ops_oracle(ops):
+    """implementation + oracle only; returns list of (step, signature, what)"""
+    w = World(); out = []
+    for k, op in enumerate(ops):
+        exp = expect_err(w, op)
+        try:
+            w.apply(op)
+        except Exception as e:
+            if exp != exc_kind(e):
+                out.append((k, '%s|raises-%s' % (op[0], exc_kind(e)), 'operation %r raised %s: %s (expected %s)' % (op, exc_kind(e), str(e)[:120], exp or 'no exception')))
+            break
+        if exp is not None:
+            out.append((k, '%s|no-%s' % (op[0], exp), 'operation %r did not raise %s' % (op, exp))); break
+        for sig, what in oracle_ops(w, op):
+            out.append((k, '%s|%s' % (op[0], sig), what))
+        if out: break
+    return out
+
+
+def shrink_ops(ops, sig):
+    """greedy removal of operations while the same signature is still reported"""
+    cur = list(ops)
+    changed = True
+    while changed and len(cur) > 1:
+        changed = False
+        for i in range(len(cur) - 1, -1, -1):
+            cand = cur[:i] + cur[i + 1:]
+            try:
+                r = run_ops_oracle(cand)
+            except Exception:
+                continue
+            if any(s == sig for _, s, _ in r):
+                cur = cand[:max(k for k, s, _ in r if s == sig) + 1]; changed = True; break
+    return cur
+
+
+def explore_ops(chk, n, maxlen, do_model=True):
+    cases = [gen_ops(chk.rng, maxlen) for _ in range(n)]
+    results = []
+    for ops in cases:
+        w = World(); steps = []
+        for k, op in enumerate(ops):
+            exp = expect_err(w, op)
+            try:
+                w.apply(op)
+            except Exception as e:
+                steps.append(('err', exc_kind(e), str(e)[:160], exp)); break
+            bad = oracle_ops(w, op)
+            try:
+                snap = snapshot(w)
+            except Exception as e:
+                snap = None
+                if not bad: bad.append(('snapshot-raises-' + exc_kind(e), 'reading the structure raised %s: %s' % (exc_kind(e), str(e)[:150])))
+            steps.append(('ok', snap, bad, exp))
+            if bad: break          # the structure is incoherent from here on
+        results.append(steps)
+    model = coq_eval_sharded('c18ops', 'Net.Bom', 'Open Scope Z_scope.',
+                             ['obs_trace %s' % clist([coq_op(o) for o in ops]) for ops in cases], shard=12) if do_model else [None] * n
+    reported = set()
+    for ops, steps, mo in zip(cases, results, model):
+        for k, st in enumerate(steps):
+            op = ops[k]; case = {'stream': 'ops', 'ops': ops[:k + 1]}
+            chk.count('op=%s' % op[0]); chk.count('ops_outcome=%s' % (st[0] if st[0] == 'ok' else st[1]))
+            fails = []
+            if st[0] == 'err':
+                if st[3] != st[1]: fails.append(('%s|raises-%s' % (op[0], st[1]), 'operation %r raised %s: %s (expected %s)' % (op, st[1], st[2], st[3] or 'no exception')))
+            else:
+                if st[3] is not None: fails.append(('%s|no-%s' % (op[0], st[3]), 'operation %r did not raise %s' % (op, st[3])))
+                fails += [('%s|%s' % (op[0], sig), what) for sig, what in st[2]]
+            for sig, what in fails:
+                if sig not in reported:
+                    reported.add(sig)
+                    small = shrink_ops(ops[:k + 1], sig)
+                    chk.fail(sig, what + ' [after %d operations; shrunk to %d]' % (k + 1, len(small)), {'stream': 'ops', 'ops': small})
+                else:
+                    chk.fail(sig, what, case)
+            if do_model:
+                chk.traces += 1
+                m = mo[k] if k < len(mo) else None
+                if st[0] == 'err':
+                    if not (isinstance(m, tuple) and m[0] == 'OErr' and ERRMAP.get(m[1]) == st[1]):
+                        chk.mismatch('operation %r: implementation raises %s, model gives %r' % (op, st[1], m if not isinstance(m, tuple) or m[0] == 'OErr' else 'Ok'), case)
+                elif not (isinstance(m, tuple) and m[0] == 'OOk'):
+                    chk.mismatch('operation %r: implementation succeeds, model gives %r' % (op, m), case)
+                elif st[1] is None:
+                    chk.mismatch('operation %r: the structure of the implementation cannot be read' % (op,), case)
+                else:
+                    a = jsonable(st[1]); b = jsonable(norm_model(m[1]))
+                    if a != b:
+                        part = [nm for nm, x, y in zip(('nodes', 'products', 'boms', 'edges/sources/sinks', 'views'), a, b) if x != y]
+                        det = ''
+                        if part == ['views']:
+                            for vx, vy in zip(a[4], b[4]):
+                                if vx != vy:
+                                    names = ('index', 'descendants', 'ancestors', 'NBOM table', 'per-product views', 'raw materials', 'per-raw-material views')
+                                    det = '; node %r: ' % vx[0] + ', '.join('%s impl %r model %r' % (nm, ux, uy) for nm, ux, uy in zip(names, vx, vy) if ux != uy)[:600]
+                                    break
+                        else:
+                            i0 = ('nodes', 'products', 'boms', 'edges/sources/sinks', 'views').index(part[0])
+                            det = '; impl %r model %r' % (a[i0], b[i0])
+                        chk.mismatch('after %r the %s differ%s' % (op, '+'.join(part), det[:900]), case)
+            if st[0] == 'ok' and st[1] is not None:
+                nodes = st[1][0]
+                nontriv = len(nodes) >= 2 and any(n[2] for n in nodes)
+                chk.case(case, nontriv, key=hashlib.sha1(json.dumps(jsonable(st[1][:3])).encode()).hexdigest())
+            else:
+                chk.case(case, False)
+        if do_model and mo is not None and len(mo) != len(steps) and not (steps and steps[-1][0] == 'ok' and steps[-1][2]):
+            chk.mismatch('trace lengths differ: implementation %d steps, model %d' % (len(steps), len(mo)), {'stream': 'ops', 'ops': ops})
+
+
+SHAPES = ['none', 'scalar', 'list', 'dict']
+
+
+def enum_builders(rng, sizes):
+    """systematic part: every builder x size x (ds shape, dt shape) x node_order_in_lists mode x labelling"""
+    out = []
+    for kind in ('nfe', 'single', 'serial', 'owmr', 'mwor'):
+        for size in sizes:
+            if kind == 'single' and size > 1: continue
+            if kind in ('owmr', 'mwor') and size < 2: continue
+            for relabel in (False, True):
+                for lists_mode in (None, 'perm'):
+                    if kind == 'single' and lists_mode: continue
+                    for ds_s in SHAPES:
+                        for dt_s in SHAPES:
+                            c = {'stream': 'builder', 'kind': kind, 'malformed': None, 'bogus': False}
+                            if kind == 'nfe':
+                                labels = rng.sample(range(10), size) if relabel else list(range(size))
+                                edges = [[labels[rng.randrange(j)], labels[j]] for j in range(1, size)]    # a random in-tree
+                                if size >= 3 and rng.random() < 0.5: edges.append([labels[0], labels[size - 1]])
+                                c['edges'] = edges; c['sys'] = None
+                                nodes = []
+                                for e in edges:
+                                    for x in e:
+                                        if x not in nodes: nodes.append(x)
+                                if not edges: nodes = [0]
+                            elif kind == 'single':
+                                c['index'] = rng.randrange(10) if relabel else None; c['sys'] = None
+                                nodes = [0 if c['index'] is None else c['index']]
+                            else:
+                                c['size'] = size
+                                default = list(range(size)) if kind in ('serial', 'owmr') else list(range(1, size)) + [0]
+                                c['sys'] = rng.sample(range(10), size) if relabel else None
+                                nodes = c['sys'] if c['sys'] is not None else default
+                            lists = None
+                            if lists_mode and not (kind == 'nfe' and not c['edges']):
+                                lists = nodes[:]; rng.shuffle(lists)
+                            c['lists'] = lists
+                            order = lists if lists is not None else (sorted(nodes) if kind == 'nfe' else nodes)
+                            def mk(shape, val):
+                                if shape == 'none': return ['none']
+                                if shape == 'scalar': return ['scalar', val()]
+                                if shape == 'list': return ['list', [None if rng.random() < 0.2 else val() for _ in order]]
+                                return ['dict', [[i, None if rng.random() < 0.15 else val()] for i in nodes if rng.random() < 0.8]]
+                            c['ds'] = mk(ds_s, lambda: rng.choice(['T', 'T', 'U']))
+                            c['dt'] = mk(dt_s, lambda: rng.choice(['N', 'P', 'UD']))
+                            c['hc'] = mk(rng.choice(SHAPES), lambda: rng.randint(1, 9))
+                            c['so'] = mk(rng.choice(SHAPES), lambda: rng.randint(1, 9))
+                            c['st'] = mk(rng.choice(SHAPES), lambda: rng.choice(['U', None]))
+                            out.append(c)
+    return out
+
+
+def enum_malformed(rng):
+    """systematic malformed part: node_order_in_lists that is not the node set, list of the wrong length"""
+    out = []
+    for kind in ('serial', 'owmr', 'mwor', 'nfe'):
+        for size in (1, 2, 3, 4):
+            if kind in ('owmr', 'mwor', 'nfe') and size < 2: size_ok = (kind != 'nfe')
+            else: size_ok = True
+            if not size_ok: continue
+            for relabel in (False, True):
+                for mal in ('order-set', 'list-length'):
+                    c = {'stream': 'builder', 'kind': kind, 'bogus': False, 'ds': ['none'], 'dt': ['scalar', 'N'], 'so': ['none'], 'st': ['none']}
+                    if kind == 'nfe':
+                        labels = rng.sample(range(10), size) if relabel else list(range(size))
+                        c['edges'] = [[labels[j - 1], labels[j]] for j in range(1, size)]; c['sys'] = None
+                        nodes = labels
+                    else:
+                        c['size'] = size
+                        default = list(range(size)) if kind in ('serial', 'owmr') else list(range(1, size)) + [0]
+                        c['sys'] = rng.sample(range(10), size) if relabel else None
+                        nodes = c['sys'] if c['sys'] is not None else default
+                    lists = nodes[:]; rng.shuffle(lists)
+                    if mal == 'order-set':
+                        lists[rng.randrange(len(lists))] = max(nodes) + 1 + rng.randrange(3)
+                        c['hc'] = ['list', [rng.randint(1, 9) for _ in lists]]
+                    else:
+                        if rng.random() < 0.5: lists = None
+                        n = len(nodes) + rng.choice([-1, 1])
+                        c['hc'] = ['list', [rng.randint(1, 9) for _ in range(n)]]
+                    c['lists'] = lists; c['malformed'] = mal
+                    out.append(c)
+    return out
+
+
+def builder_fn(c):
+    return {'nfe': 'network_from_edges', 'single': 'single_stage_system'}.get(c['kind'], c['kind'] + '_system')
+
+
+def check_builder_case(chk, c, im, m=None, do_model=True):
+    fn = builder_fn(c)
+    chk.count('builder=%s' % c['kind']); chk.count('builder_malformed=%s' % (c['malformed'] or ('bogus' if c.get('bogus') else None)))
+    for a in ('hc', 'so', 'ds', 'dt'): chk.count('shape_%s=%s' % (a, c[a][0]))
+    chk.count('node_order_in_lists=%s' % ('given' if c['lists'] is not None else 'None'))
+    _, nodes = builder_nodes(c)
+    if c.get('bogus'):
+        if im[0] != 'err' or im[1] != 'AttributeError':
+            chk.fail('%s|unknown-keyword-accepted' % fn, 'unknown keyword argument not rejected with AttributeError: %r' % (im[:2],), c)
+        chk.case(c, False); return
+    if c['malformed']:
+        if im[0] != 'err' or im[1] != 'ValueError':
+            if c['malformed'] == 'order-set':
+                sig = '%s|single-node-order-mismatch-accepted' % fn if len(nodes) == 1 else '%s|node_order_in_lists-mismatch-accepted' % fn
+                chk.fail(sig, 'node_order_in_lists=%r does not list the nodes %r but no ValueError: %r' % (c['lists'], nodes, im[:2] if im[0] == 'err' else [n[0] for n in im[1][0]]), c)
+            else:
+                chk.fail('%s|list-length-accepted' % fn, 'list argument of the wrong length not rejected with ValueError: %r' % (im[:2] if im[0] == 'err' else 'ok',), c)
+    elif im[0] == 'err':
+        chk.fail('%s|raises-%s' % (fn, im[1]), 'valid arguments raise %s: %s' % (im[1], im[2]), c)
+    else:
+        for sig, what in oracle_builder(c, im[1]):
+            chk.fail('%s|%s' % (fn, sig), what, c)
+    if do_model:
+        chk.traces += 1
+        mm = norm_builder_model(m)
+        if im[0] == 'err':
+            if mm[0] != 'err' or mm[1] != im[1]:
+                chk.mismatch('%s: implementation raises %s, model gives %r' % (fn, im[1], mm[:2] if mm[0] == 'err' else 'ok'), c)
+        elif jsonable(mm) != jsonable(im):
+            chk.mismatch('%s: implementation %r vs model %r' % (fn, jsonable(im)[1], jsonable(mm)[1] if mm[0] == 'ok' else mm), c)
+    key = json.dumps(jsonable({k: v for k, v in c.items() if k != 'stream'}), sort_keys=True)
+    chk.case(c, im[0] == 'ok' and len(nodes) >= 2, key=key)
+
+
+def explore_builders(chk, n, sizes, do_model=True):
+    cases = [gen_builder(chk.rng, max(sizes)) for _ in range(n)] + enum_builders(chk.rng, sizes) + enum_malformed(chk.rng)
+    impl = [run_impl_builder(c)[0] for c in cases]
+    todo = [i for i, c in enumerate(cases) if not c.get('bogus')]
+    model = {}
+    if do_model:
+        vals = coq_eval_sharded('c18b', 'Net.Builders', 'Open Scope Z_scope.', [coq_builder(cases[i]) for i in todo], shard=250)
+        model = dict(zip(todo, vals))
+    for i, (c, im) in enumerate(zip(cases, impl)):
+        check_builder_case(chk, c, im, model.get(i), do_model and i in model)
+
+
+def check_levels_case(chk, c, im, mo=None, do_model=True):
+    chk.count('levels_n=%d' % len(c['sys'])); chk.count('levels_negative=%s' % any(Fraction(v) < 0 for _, v in c['S']))
+    if im[0] != 'ok':
+        chk.fail('base_stock_level_conversion|raises-%s' % im[1], 'conversion raised %s: %s' % (im[1], im[2]), c)
+        chk.case(c, False); return
+    for sig, what in oracle_levels(c, im):
+        chk.fail(sig, what, c)
+    if do_model:
+        chk.traces += 1
+        if mo is None:
+            chk.mismatch('model serial_system failed', c)
+        else:
+            e, l = un_opt(mo)
+            me = [(i, qv(un_opt(v)) if v is not None else None) for i, v in e]
+            ml = [(i, qv(un_opt(v)) if v is not None else None) for i, v in l]
+            if me != im[1] or ml != im[2]:
+                chk.mismatch('levels: implementation echelon %r local %r vs model %r %r' % (jsonable(im[1]), jsonable(im[2]), jsonable(me), jsonable(ml)), c)
+    chk.case(c, len(c['sys']) >= 2, key=json.dumps(jsonable([c['sys'], c['S']])))
+
+
+def explore_levels(chk, n, maxn, do_model=True):
+    cases = [gen_levels(chk.rng, maxn) for _ in range(n)]
+    impl = [run_impl_levels(c) for c in cases]
+    model = coq_eval_sharded('c18l', 'Net.Builders Net.Levels', 'Open Scope Z_scope.', [coq_levels(c) for c in cases], shard=250) if do_model else [None] * n
+    for c, im, mo in zip(cases, impl, model):
+        check_levels_case(chk, c, im, mo, do_model)
+
+
+def run(chk):
+    chk.rule = RULE
+    chk.trusted += ['models Net/Graph.v, Net/Bom.v, Net/Builders.v, Net/Levels.v are hand-written; tied to /repo by comparing, after every single operation, the complete structure (node order, predecessor/successor/product lists, network product list, BOM dicts) and every derived view with the implementation; builders and level conversions by comparing every output',
+                    'networkx (descendants / ancestors) is not modelled: the model computes reachability itself and is compared with the implementation; the oracle uses its own DFS',
+                    'the oracle re-implements the documented views in Python from the raw index lists and the product BOM dicts']
+    chk.assume += ['operation sequences use one network, node objects taken from the network when the index exists and fresh nodes otherwise, a fixed pool of product objects, and injective re-indexing dicts (a non-injective dict merges nodes; outside the property)',
+                   'level conversions: exact rationals in the theorems; generated levels are multiples of 1/4 so the implementation computes exactly']
+    chk.proof()
+    if chk.tier == 'quick':
+        n_ops, maxlen, n_b, sizes, n_l, maxl = 150, 30, 500, [1, 2, 3, 4, 5], 300, 7
+    else:
+        n_ops, maxlen, n_b, sizes, n_l, maxl = 2500, 30, 6000, [1, 2, 3, 4, 5], 3000, 9
+    explore_ops(chk, n_ops, maxlen)
+    explore_builders(chk, n_b, sizes)
+    if chk.tier != 'quick':
+        explore_builders(chk, 0, [1, 2, 3, 4, 5]); explore_builders(chk, 0, [1, 2, 3, 4, 5])     # two more systematic sweeps with fresh values
+    explore_levels(chk, n_l, maxl)
+    if (chk.broken or chk.mismatches) and not chk.fails:
+        # directed search for a failing input: larger budget, oracles only
+        explore_ops(chk, 8 * n_ops if chk.tier == 'quick' else 2 * n_ops, maxlen, do_model=False)
+        explore_builders(chk, 6 * n_b if chk.tier == 'quick' else n_b, sizes, do_model=False)
+        explore_levels(chk, 6 * n_l if chk.tier == 'quick' else n_l, maxl, do_model=False)
+
+
+def replay(chk, rp):
+    c = rp['case']
+    st = c.get('stream')
+    if st == 'ops':
+        r = run_ops_oracle(c['ops'])
+        print('operations:', json.dumps(c['ops']))
+        print('oracle:', r if r else 'no violation')
+        for k, sig, what in r:
+            chk.fail(sig, what, c)
+    elif st == 'builder':
+        im, _ = run_impl_builder(c)
+        print('implementation:', jsonable(im))
+        check_builder_case(chk, c, im, None, do_model=False)
+        return
+    elif st == 'levels':
+        im = run_impl_levels(c)
+        print('implementation:', jsonable(im))
+        check_levels_case(chk, c, im, None, do_model=False)
+        return
+    chk.case(c)
